@@ -137,7 +137,7 @@ func runCheck(args []string) int {
 			lemmas = append(lemmas, l)
 		}
 	}
-	if len(names) == 0 && len(lemmas) == 0 {
+	if len(names) == 0 && len(lemmas) == 0 && id != "C14" {
 		fmt.Fprintf(os.Stderr, "TOOLING-ERROR: no contract clause is tagged %s\n", id)
 		return 2
 	}
@@ -172,6 +172,9 @@ func runCheck(args []string) int {
 	}
 	for _, l := range lemmas {
 		results = append(results, verifyLemma(p, l, timeout))
+	}
+	if id == "C14" {
+		results = append(results, verifySweep(p))
 	}
 
 	// smoke (vacuity) checks, for functions all of whose obligations were discharged
